@@ -62,6 +62,34 @@ BOOST_MSM_BACK_GENERATE_PROCESS_EVENT(XSub)
 static bool has(const std::string& s, const std::string& w){ return (" " + s).find(" " + w + " ") != std::string::npos; }
 static int count(const std::string& s, const std::string& w){ int n=0; size_t p=0; std::string h=" "+s; while((p=h.find(" "+w+" ",p))!=std::string::npos){++n;++p;} return n; }
 
+// three levels: an event only the INNERMOST machine has a row for must be forwarded through a middle machine that does not mention it
+// (C07 hierarchy; the forwarding rows are a type-level computation in every back-end).  Not under back11: three levels do not compile there.
+#if !defined(CFG_back11)
+struct deep {}; 
+struct L3_ : state_machine_def<L3_> {
+  struct P : state<> {}; struct Q : state<> {};
+  typedef P initial_state;
+  struct transition_table : mpl::vector< Row<P,deep,Q,A<8>,none> > {};
+  template<class F,class Ev> void no_transition(Ev const&,F&,int){ g_log += "NT3 "; }
+};
+typedef BE<L3_> L3;
+struct L2_ : state_machine_def<L2_> {
+  typedef L3 initial_state;
+  struct transition_table : mpl::vector<> {};
+  template<class F,class Ev> void no_transition(Ev const&,F&,int){ g_log += "NT2 "; }
+};
+typedef BE<L2_> L2;
+struct L1_ : state_machine_def<L1_> {
+  typedef L2 initial_state;
+  struct transition_table : mpl::vector<> {};
+  template<class F,class Ev> void no_transition(Ev const&,F&,int){ g_log += "NT "; }
+};
+typedef BE<L1_> L1;
+#if IS_BACK_CT
+BOOST_MSM_BACK_GENERATE_PROCESS_EVENT(L3)
+BOOST_MSM_BACK_GENERATE_PROCESS_EVENT(L2)
+#endif
+#endif
 int main(int argc, char** argv) {
   if (argc > 1) g_only = argv[1];
   for (unsigned v = 0; v < (1u<<NBITS); ++v) {
@@ -101,5 +129,9 @@ int main(int argc, char** argv) {
     report("exitpt.guard-rejects", r != 0 && !has(g_log, "NT") && !has(g_log, "NTsub") && count(g_log, "gL") == 1 && !has(g_log, "a7"), "C06,C13,C09", "ret=" + std::to_string(r) + " log=[" + g_log + "]"); }
   { XTop m; m.start(); g_log.clear(); leave l1(true); int r = (int)m.process_event(l1);
     report("exitpt.taken", (r & 1) && count(g_log, "a7") == 1 && !has(g_log, "NT"), "C09,C13,C07", "ret=" + std::to_string(r) + " log=[" + g_log + "]"); }
+#if !defined(CFG_back11)
+  { L1 m; m.start(); g_log.clear(); deep d_; int r = (int)m.process_event(d_);
+    report("three-levels.forwarded-to-the-innermost", (r & 1) && g_log == "a8 ", "C07,C01,C13", "ret=" + std::to_string(r) + " log=[" + g_log + "]"); }
+#endif
   return finish();
 }
